@@ -9,7 +9,7 @@ PROPERTY = 'C12'
 LEVEL = 'fault_enumeration'
 RULE = ('every program of 1-3 users (borrow/claim, amounts 1-2 of 1-2 named resources, hold none/instant/+1, nested '
         'borrow from the borrowed share, arrival 0/+1) and an optional helper (increase/decrease/set) on Capacities and '
-        'Resources supplies; fault-free and with one deviation: cancel at every activation boundary of every user, '
+        'Resources supplies, plus users that are children (one volatile) of a user\'s own scope; fault-free and with one deviation: cancel at every activation boundary of every user, '
         'until-interrupt / forceful close of one user and forceful close of all users at once swept over every position '
         'of every FIFO round. Oracle: at EVERY activation boundary supply - in_flight <= available <= supply - held and '
         'available >= 0, claims never wait and fail exactly when unavailable, available == supply at the end; '
@@ -79,6 +79,18 @@ def cases(tier):
                 if not thorough and u1[-1][0] == 'TRY' and u2[-1][0] == 'TRY' and u3[-1][0] == 'TRY':
                     continue
                 out.append(program(supply, [u1, u2, u3], h))
+    # users that are the children of an activity's own scope - one of them volatile, holding until that scope ends; the
+    # owner is cancelled / interrupted / closed at every boundary, also while it waits for its children at the end of its block
+    for supply in ('cap2', 'res2'):
+        for reg in ([['BORROW', 'r', {'a': 1}, [['D', 2]]]], [['D', 1], ['BORROW', 'r', {'a': 1}, [['D', 1]]]],
+                    [['TRY', [['CLAIM', 'r', {'a': 1}, [['D', 2]]]]]]):
+            for vol in ([['BORROW', 'r', {'a': 1}, [['ETERNITY']]]], [['D', 1], ['BORROW', 'r', {'a': 1}, [['D', 5]]]]):
+                for tail in ([], [['D', 1]]):
+                    for other in (None, user(1, 'BORROW', {'a': 2}, 1, False)):
+                        inner = [['DO', 'g1', reg], ['DO', 'g2', vol, {'volatile': True}]] + tail
+                        owner = [['SCOPE', 'in', inner], ['PROBE', 'levels', 'r']]
+                        p = program(supply, [owner] + ([other] if other else []), None)
+                        out.append(p)
     return out
 
 
